@@ -411,3 +411,250 @@ Proof.
     destruct e4; try discriminate. destruct e5; try discriminate.
     apply Permutation_length in P. cbn in P. discriminate.
 Qed.
+
+(* ---------------------------------------------------------------- one rename-flagged operation per item *)
+Lemma find_app_none {A} (g : A -> bool) a b : find g a = None -> find g (a ++ b) = find g b.
+Proof. induction a as [|x a IH]; [reflexivity|]. cbn [find app]. destruct (g x); [discriminate | exact IH]. Qed.
+
+Lemma distinct_itemsb_ok l : distinct_itemsb l = true -> distinct_items l.
+Proof.
+  induction l as [|e r IH]; [intros _; exact I|]. cbn [distinct_itemsb distinct_items].
+  intros H. apply andb_true_iff in H as [H1 H2]. split; [|now apply IH].
+  intros x Hx. apply negb_true_iff in H1. apply not_true_is_false. intros E.
+  assert (existsb (same_item e) r = true) by (apply existsb_exists; now exists x). congruence.
+Qed.
+
+Lemma nodupb_cons x r : nodupb (x :: r) = true -> ~ In x r /\ nodupb r = true.
+Proof.
+  cbn [nodupb]. intros H. apply andb_true_iff in H as [H1 H2]. split; [|exact H2].
+  intros Hin. apply negb_true_iff in H1.
+  assert (existsb (N.eqb x) r = true) by (apply existsb_exists; exists x; split; [exact Hin | apply N.eqb_refl]). congruence.
+Qed.
+
+Lemma nodupb_app a b : nodupb (a ++ b) = true -> nodupb b = true /\ (forall x, In x a -> ~ In x b).
+Proof.
+  induction a as [|y a IH]; [intros H; split; [exact H | intros x []]|].
+  cbn [app]. intros H. apply nodupb_cons in H as [Hn H]. destruct (IH H) as [Hb Hd]. split; [exact Hb|].
+  intros x [<-|Hx]; [intros Hin; apply Hn, in_or_app; now right | now apply Hd].
+Qed.
+
+(* the events of an operation that is not about item i are no look-ahead partner for i *)
+Lemma kernel_no_partner root f o i :
+  (forall j, rename_subject f o = Some j -> j <> i) ->
+  find (partner i) (map (frender root) (fsevents_kernel f o)) = None.
+Proof.
+  intros H. unfold partner.
+  assert (Hneq : forall j, j <> i -> N.eqb j i = false) by (intros j Hj; now apply N.eqb_neq).
+  destruct o as [p i0|p i0|p|p|p|p|s d|s|d k i0 content]; cbn [fsevents_kernel rename_subject] in *.
+  - reflexivity.
+  - reflexivity.
+  - destruct (lookup f p) as [e|]; [|reflexivity]. cbn [map find frender fst snd]. destruct (e_kind e); reflexivity.
+  - destruct (lookup f p) as [e|]; [|reflexivity]. cbn [map find frender fst snd]. destruct (e_kind e); reflexivity.
+  - destruct (lookup f p) as [e|]; [|reflexivity]. cbn [map find frender fst snd]. destruct (e_kind e); reflexivity.
+  - destruct (lookup f p) as [e|]; [|reflexivity]. cbn [map find frender fst snd]. destruct (e_kind e); reflexivity.
+  - destruct (lookup f s) as [e|]; [|reflexivity]. cbn [map find frender fst snd f_ino].
+    rewrite (Hneq (e_ino e)) by (apply H; reflexivity). now rewrite !andb_false_r.
+  - destruct (lookup f s) as [e|]; [|reflexivity]. cbn [map find frender fst snd f_ino].
+    rewrite (Hneq (e_ino e)) by (apply H; reflexivity). now rewrite !andb_false_r.
+  - cbn [map find frender fst snd f_ino]. rewrite (Hneq i0) by (apply H; reflexivity). now rewrite !andb_false_r.
+Qed.
+
+Lemma batch_no_partner root i : forall ops f,
+  ~ In i (rename_subjects f ops) -> find (partner i) (batch_natives root f ops) = None.
+Proof.
+  induction ops as [|o r IH]; intros f H; [reflexivity|]. cbn [batch_natives rename_subjects] in *.
+  rewrite find_app_none.
+  - apply IH. intros Hin. apply H, in_or_app. now right.
+  - apply kernel_no_partner. intros j Ej Eq. subst j. apply H, in_or_app. left. rewrite Ej. now left.
+Qed.
+
+Section SemOk.
+  Variable stat_ino : bytes -> option N.
+  Variable sub : path -> tree.
+  Variable root : bytes.
+
+  (* [batch_ok] without its look-ahead clause: what remains are statements about the answers of the
+     file system at processing time (F12d lives in their failure) and inode freshness *)
+  Fixpoint batch_sem_ok (seen : list N) (f : fs) (ops : list op) : Prop :=
+    match ops with
+    | [] => True
+    | o :: r =>
+      let after := apply_op f o in
+      op_names_ok o = true /\ op_ok f o = true /\
+      stat_ok stat_ino root f o /\
+      (forall i, In i (created_ino o) -> ~ In i seen) /\
+      covers sub after o /\
+      batch_sem_ok (seen ++ subject_ino f o) after r
+    end.
+
+  Theorem one_rename_batch_ok : forall ops f seen,
+    one_rename_per_item f ops = true -> batch_sem_ok seen f ops -> batch_ok stat_ino sub root seen f ops.
+  Proof.
+    unfold one_rename_per_item. induction ops as [|o r IH]; intros f seen Hone H; [exact I|].
+    destruct H as (Hn & Ho & Hst & Hfresh & Hc & Hr). cbn [rename_subjects] in Hone.
+    apply nodupb_app in Hone as [Hrest Hdisj].
+    cbn [batch_ok]. repeat split; try assumption; [|now apply IH].
+    unfold no_partner.
+    destruct o as [p i0|p i0|p|p|p|p|s d|s|d k i0 content]; try exact I; cbn [rename_subject] in Hdisj.
+    - destruct (lookup f s) as [e|]; [|exact I]. apply batch_no_partner. apply Hdisj. now left.
+    - apply batch_no_partner. apply Hdisj. now left.
+  Qed.
+End SemOk.
+
+(* C20_fsevents_batched: several operations per batch, coalesced or not *)
+Theorem fse_batched_one_rename : forall stat_ino walk sub root ops seen view f natives,
+  root <> [] -> last_is_sep root = false ->
+  (forall p, walk (abspath root p) = sub p) -> (forall p, wf_tree (sub p) = true) ->
+  wf_fs f ->
+  one_rename_per_item f ops = true ->
+  batch_sem_ok stat_ino sub root seen f ops ->
+  (forall j, mem j view = true -> In j seen) ->
+  natives = batch_natives root f ops \/
+  (distinct_itemsb (batch_natives root f ops) = true /\ natives = coalesce_all (batch_natives root f ops)) ->
+  exists v, queue_events stat_ino walk true root view natives
+            = Some (map (render root) (batch_contracts sub f ops), v, false) /\
+            Permutation (replay (view_of f) (batch_contracts sub f ops)) (view_of (fold_left apply_op ops f)).
+Proof.
+  intros stat_ino walk sub root ops seen view f natives Hr Hs Hw Hwf W Hone Hsem Inv Hnat.
+  assert (natives = batch_natives root f ops) as ->.
+  { destruct Hnat as [->|[Hd ->]]; [reflexivity|]. apply coalesce_distinct. now apply distinct_itemsb_ok. }
+  eapply fse_batch_recursive; eauto. now apply one_rename_batch_ok.
+Qed.
+
+(* ---------------------------------------------------------------- histories of batches *)
+(* the inodes seen once a batch has been processed *)
+Fixpoint batch_seen (seen : list N) (f : fs) (ops : list op) : list N :=
+  match ops with
+  | [] => seen
+  | o :: r => batch_seen (seen ++ subject_ino f o) (apply_op f o) r
+  end.
+
+Section BatchView.
+  Variable stat_ino : bytes -> option N.
+  Variable walk : bytes -> tree.
+  Variable sub : path -> tree.
+  Variable recursive : bool.
+  Variable root : bytes.
+  Hypothesis Hroot : root <> [].
+  Hypothesis Hsep : last_is_sep root = false.
+  Hypothesis Hwalk : forall p, walk (abspath root p) = sub p.
+  Hypothesis Hwf : forall p, wf_tree (sub p) = true.
+
+  (* [batch_contract] with what it leaves in the _fs_view *)
+  Theorem batch_contract_view : forall ops f seen view fuel,
+    batch_ok stat_ino sub root seen f ops -> (forall j, mem j view = true -> In j seen) -> (length ops <= fuel)%nat ->
+    exists v, loop stat_ino walk recursive root fuel view (batch_natives root f ops)
+              = Some (filter (keep recursive root) (map (render root) (batch_contracts sub f ops)), v, false) /\
+              (forall j, mem j v = true -> In j (batch_seen seen f ops)).
+  Proof.
+    induction ops as [|o r IH]; intros f seen view fuel H Inv Hf.
+    - exists view. split; [destruct fuel; reflexivity | exact Inv].
+    - destruct H as (Hn & Ho & Hst & Hnp & Hfresh & _ & Hr). cbn [batch_natives batch_contracts batch_seen].
+      destruct fuel as [|fuel]; [simpl in Hf; lia|].
+      destruct (fse_step stat_ino walk sub recursive root Hroot Hsep Hwalk Hwf view f o
+                         (batch_natives root (apply_op f o) r) Hn Ho Hst Hnp) as (v & E & B).
+      { intros i Hi. destruct (mem i view) eqn:Em; [|reflexivity]. exfalso. apply (Hfresh i Hi). now apply Inv. }
+      rewrite E.
+      destruct (IH (apply_op f o) (seen ++ subject_ino f o) v fuel Hr) as (v2 & E2 & B2).
+      { intros j Hj. apply in_or_app. destruct (B j Hj) as [Hv|Hs]; [left; now apply Inv | now right]. }
+      { simpl in Hf. lia. }
+      rewrite E2. exists v2. split; [now rewrite map_app, filter_app | exact B2].
+  Qed.
+End BatchView.
+
+Lemma batch_closed stat_ino sub root : forall ops f seen, closed_fs f -> batch_ok stat_ino sub root seen f ops ->
+  closed_fs (fold_left apply_op ops f).
+Proof.
+  induction ops as [|o r IH]; intros f seen C H; [exact C|].
+  destruct H as (Hn & Ho & _ & _ & _ & _ & Hr). cbn [fold_left]. eapply IH; [now apply closed_apply | exact Hr].
+Qed.
+
+(* what the file system answers while one batch is processed *)
+Record boracle := BOracle { b_stat : bytes -> option N; b_walk : bytes -> tree; b_sub : path -> tree }.
+
+Section Batches.
+  Variable root : bytes.
+  Hypothesis Hroot : root <> [].
+  Hypothesis Hsep : last_is_sep root = false.
+
+  (* one batch: its oracles, its operations, whether FSEvents coalesced it *)
+  Definition batch := (boracle * list op * bool)%type.
+
+  Definition batch_in (f : fs) (b : batch) : list fnative :=
+    let nat := batch_natives root f (snd (fst b)) in if snd b then coalesce_all nat else nat.
+
+  (* the emitter (recursive watch), one call of queue_events per batch, _fs_view carried along *)
+  Fixpoint batches_run (bs : list batch) (view : list N) (f : fs) : option (list ev * list N) :=
+    match bs with
+    | [] => Some ([], view)
+    | b :: r =>
+      match queue_events (b_stat (fst (fst b))) (b_walk (fst (fst b))) true root view (batch_in f b) with
+      | Some (out, v, _) =>
+        match batches_run r v (fold_left apply_op (snd (fst b)) f) with
+        | Some (out2, v2) => Some (out ++ out2, v2)
+        | None => None
+        end
+      | None => None
+      end
+    end.
+
+  Fixpoint batches_contracts (bs : list batch) (f : fs) : list aev :=
+    match bs with
+    | [] => []
+    | b :: r => batch_contracts (b_sub (fst (fst b))) f (snd (fst b))
+                ++ batches_contracts r (fold_left apply_op (snd (fst b)) f)
+    end.
+
+  Fixpoint batches_final (bs : list batch) (f : fs) : fs :=
+    match bs with
+    | [] => f
+    | b :: r => batches_final r (fold_left apply_op (snd (fst b)) f)
+    end.
+
+  (* per batch: os.walk tells the truth; no item is the subject of two rename-flagged operations in the
+     batch (executable; excludes F12a-c); the semantic clauses of [batch_sem_ok] about os.stat / os.walk
+     at processing time and inode freshness (their failure is F12d); a coalesced batch has no two
+     events for the same item at the same path (executable; excludes the hoisting of F12e) *)
+  Fixpoint batches_ok (bs : list batch) (seen : list N) (f : fs) : Prop :=
+    match bs with
+    | [] => True
+    | b :: r =>
+      let oc := fst (fst b) in let ops := snd (fst b) in
+      (forall p, b_walk oc (abspath root p) = b_sub oc p) /\ (forall p, wf_tree (b_sub oc p) = true) /\
+      one_rename_per_item f ops = true /\
+      batch_sem_ok (b_stat oc) (b_sub oc) root seen f ops /\
+      (snd b = true -> distinct_itemsb (batch_natives root f ops) = true) /\
+      batches_ok r (batch_seen seen f ops) (fold_left apply_op ops f)
+    end.
+
+  Theorem fse_batches : forall bs seen view f,
+    closed_fs f -> batches_ok bs seen f -> (forall j, mem j view = true -> In j seen) ->
+    exists v, batches_run bs view f = Some (map (render root) (batches_contracts bs f), v) /\
+              Permutation (replay (view_of f) (batches_contracts bs f)) (view_of (batches_final bs f)).
+  Proof.
+    induction bs as [|[[oc ops] co] r IH]; intros seen view f C H Inv.
+    - exists view. split; [reflexivity | apply Permutation_refl].
+    - cbn [batches_ok fst snd] in H. destruct H as (Hw & Hwf & Hone & Hsem & Hco & Hr).
+      pose proof (one_rename_batch_ok (b_stat oc) (b_sub oc) root ops f seen Hone Hsem) as Hok.
+      assert (Hin : batch_in f (oc, ops, co) = batch_natives root f ops).
+      { unfold batch_in. cbn [fst snd]. destruct co; [|reflexivity].
+        apply coalesce_distinct, distinct_itemsb_ok, Hco. reflexivity. }
+      destruct (batch_contract_view (b_stat oc) (b_walk oc) (b_sub oc) true root Hroot Hsep Hw Hwf ops f seen view
+                  (length (batch_natives root f ops)) Hok Inv) as (v & E & B).
+      { eapply batch_length; eauto. }
+      rewrite keep_recursive in E.
+      destruct (IH (batch_seen seen f ops) v (fold_left apply_op ops f)) as (v2 & E2 & P2);
+        [eapply batch_closed; eauto | exact Hr | exact B |].
+      exists v2. cbn [batches_run batches_contracts batches_final fst snd]. rewrite Hin.
+      unfold queue_events. rewrite E, E2. split; [now rewrite map_app|].
+      rewrite replay_app. eapply Permutation_trans; [|exact P2].
+      apply replay_perm. eapply batch_replay; eauto.
+  Qed.
+End Batches.
+
+Theorem fse_batches_wf : forall root bs seen view f,
+  root <> [] -> last_is_sep root = false -> wf_fs f ->
+  batches_ok root bs seen f -> (forall j, mem j view = true -> In j seen) ->
+  exists v, batches_run root bs view f = Some (map (render root) (batches_contracts bs f), v) /\
+            Permutation (replay (view_of f) (batches_contracts bs f)) (view_of (batches_final bs f)).
+Proof. intros root bs seen view f Hr Hs W. apply fse_batches; try assumption. now apply wf_closed. Qed.
